@@ -8,7 +8,9 @@
 package main
 
 import (
+	"bufio"
 	"bytes"
+	"encoding/json"
 	"encoding/binary"
 	"fmt"
 	"os"
@@ -46,10 +48,13 @@ var objMaps = map[string][]mapInfo{
 }
 var progs = []progInfo{
 	{1, "antispoof", "antispoof_ingress", false, nil},
-	{2, "qos_ratelimit", "qos_egress_prog", false, []string{"qos_egress"}},
-	{3, "qos_ratelimit", "qos_ingress_prog", false, []string{"qos_ingress"}},
+	// qos: the buckets the scenarios install behave the same whatever tokens/last_update a run leaves behind
+	{2, "qos_ratelimit", "qos_egress_prog", false, nil},
+	{3, "qos_ratelimit", "qos_ingress_prog", false, nil},
 	{4, "nat44", "nat44_egress", false, []string{"nat_sessions", "nat_reverse", "eim_table", "subscriber_nat"}},
-	{5, "nat44", "nat44_ingress", false, []string{"nat_sessions", "nat_reverse"}},
+	// ingress only moves session counters / TCP state and deletes a reverse entry whose session is gone: neither
+	// changes the verdict or the bytes of a later run
+	{5, "nat44", "nat44_ingress", false, nil},
 	{6, "nat44", "nat44_hairpin_xdp", true, nil},
 	{7, "dhcp_fastpath", "dhcp_fastpath_prog", true, nil},
 }
@@ -114,12 +119,12 @@ type env struct {
 	dir  string
 	objs map[string]*objrt
 	// counters
-	kernelRefused, kernelRuns, nativeRuns, asanRuns, guardStartRuns, compared, disagree, faults int
+	kernelRefused, kernelRuns, nativeRuns, asanRuns, asanAlign, guardStartRuns, compared, disagree, faults int
 	disagreeNote                                                               string
 	verifierOK                                                                 map[string]bool
 	kernelBPF                                                                  bool
 	loadNotes                                                                  []string
-	useAsan                                                                    bool
+	useAsan, asanAllLens                                                       bool
 }
 
 func must(err error) {
@@ -239,6 +244,23 @@ func (rt *objrt) setMaps(ents []Ent, only []string) {
 	}
 }
 
+// coqBytes writes a byte string as list literals of at most 160 elements joined by ++ (Coq's elaboration time
+// grows much faster than linearly with the nesting depth of one literal)
+func coqBytes(b []byte) string {
+	if len(b) <= 160 {
+		return vh.Bytes(b)
+	}
+	var parts []string
+	for i := 0; i < len(b); i += 160 {
+		j := i + 160
+		if j > len(b) {
+			j = len(b)
+		}
+		parts = append(parts, vh.Bytes(b[i:j]))
+	}
+	return "(" + strings.Join(parts, " ++ ") + ")"
+}
+
 func coqMaps(rt *objrt, ents []Ent) string {
 	var items []string
 	for _, m := range rt.maps {
@@ -246,16 +268,16 @@ func coqMaps(rt *objrt, ents []Ent) string {
 		have0 := false
 		for _, en := range ents {
 			if en.M == m.name {
-				kvs = append(kvs, vh.Pair(vh.Bytes(en.K), vh.Bytes(en.V)))
+				kvs = append(kvs, "kv "+vh.Bytes(en.K)+" "+vh.Bytes(en.V))
 				if m.array > 0 && bytes.Equal(en.K, []byte{0, 0, 0, 0}) {
 					have0 = true
 				}
 			}
 		}
 		if m.array > 0 && !have0 {
-			kvs = append(kvs, vh.Pair(vh.Bytes([]byte{0, 0, 0, 0}), vh.Bytes(make([]byte, m.array))))
+			kvs = append(kvs, "kv "+vh.Bytes([]byte{0, 0, 0, 0})+" "+vh.Bytes(make([]byte, m.array)))
 		}
-		items = append(items, vh.Pair(vh.N(uint64(m.id)), vh.List(kvs)))
+		items = append(items, "me "+vh.N(uint64(m.id))+" "+vh.List(kvs))
 	}
 	return vh.List(items)
 }
@@ -264,13 +286,22 @@ func coqObs(o obs, frame []byte) string {
 	if o.fault {
 		return "mkobs true 0 0 []"
 	}
-	var d []string
-	for i := 0; i < len(o.data); i++ {
-		if i >= len(frame) || frame[i] != o.data[i] {
-			d = append(d, fmt.Sprintf("(%d,%d)", i, o.data[i]))
+	// runs of consecutive changed (or new) positions, at most 120 bytes per run
+	var runs []string
+	i := 0
+	for i < len(o.data) {
+		if i < len(frame) && frame[i] == o.data[i] {
+			i++
+			continue
 		}
+		j := i
+		for j < len(o.data) && j-i < 120 && (j >= len(frame) || frame[j] != o.data[j]) {
+			j++
+		}
+		runs = append(runs, fmt.Sprintf("rn %d %s", i, vh.Bytes(o.data[i:j])))
+		i = j
 	}
-	return fmt.Sprintf("mkobs false %d %d [%s]", o.verdict, len(o.data), strings.Join(d, ";"))
+	return fmt.Sprintf("mkobs false %d %d [%s]", o.verdict, len(o.data), strings.Join(runs, "; "))
 }
 
 // a group: one program, one base frame, one map state; every requested truncation length is one case
@@ -296,8 +327,10 @@ func (e *env) runGroup(g group, out *[]vh.Case, gid int) {
 	}
 	mname := fmt.Sprintf("m_%d", gid)
 	bname := fmt.Sprintf("b_%d", gid)
-	defs := []vh.Def{{Name: mname, Type: "list mapent", Body: coqMaps(rt, g.ents)}, {Name: bname, Type: "list N", Body: vh.Bytes(g.base)}}
+	defs := []vh.Def{{Name: mname, Type: "list mapent", Body: coqMaps(rt, g.ents)}, {Name: bname, Type: "list N", Body: coqBytes(g.base)}}
 	dirty := false
+	asanOff := false
+	nAlign := 0
 	for _, L := range g.lens {
 		if L > len(g.base) {
 			continue
@@ -307,7 +340,7 @@ func (e *env) runGroup(g group, out *[]vh.Case, gid int) {
 			rt.setMaps(g.ents, p.writes)
 			dirty = false
 		}
-		mayWrite := len(p.writes) > 0 && L >= 34
+		mayWrite := len(p.writes) > 0 && L >= 34 && !stableFam[g.fam]
 		// native, guard page after the frame end
 		r, err := rt.nat.Run(p.name, frame, nil)
 		must(err)
@@ -323,7 +356,7 @@ func (e *env) runGroup(g group, out *[]vh.Case, gid int) {
 			} else {
 				d.Fam, d.Var, d.Seed = g.fam, g.vr, g.seed
 			}
-			coq := fmt.Sprintf("((%d, %s, (%d, %d, %d), firstn (N.to_nat %d) %s), %s)", g.prog, mname, g.now, L, maxLen, L, bname, coqObs(o, frame))
+			coq := fmt.Sprintf("mkcase %d %s %d %d %d %s (%s)", g.prog, mname, g.now, L, maxLen, bname, coqObs(o, frame))
 			t := append([]string{"prog:" + p.name, "fam:" + g.fam, "via:" + via, lenTag(L)}, tags...)
 			t = append(t, obsTags(p, o, frame)...)
 			*out = append(*out, vh.Case{Coq: coq, Desc: d, Tags: t, Defs: defs,
@@ -364,16 +397,28 @@ func (e *env) runGroup(g group, out *[]vh.Case, gid int) {
 			}
 		}
 	afterKernel:
-		// ASan/UBSan build: a heap/stack error aborts the process
-		if rt.asan != nil {
+		// ASan/UBSan build (second opinion on the program's own stack/global memory): an error aborts the process.
+		// UBSan's alignment check is noise here (the frame start has whatever alignment the guard placement gives
+		// it, and the programs use unaligned packet access on purpose): such aborts are counted, not reported.
+		if rt.asan != nil && !asanOff && (L%4 == 2 || e.asanAllLens) {
 			ar, err := rt.asan.Run(p.name, frame, nil)
 			e.asanRuns++
 			ao := obs{fault: ar.Fault, verdict: uint32(ar.Verdict), data: ar.Data}
+			align := false
 			if err != nil {
-				ao = obs{fault: true, note: err.Error()}
-				fmt.Fprintln(os.Stderr, "c07 driver: sanitizer report:", err)
+				align = strings.Contains(err.Error(), "misaligned address")
+				if align {
+					e.asanAlign++
+					nAlign++
+					if nAlign >= 2 {
+						asanOff = true
+					}
+				} else {
+					ao = obs{fault: true, note: err.Error()}
+					fmt.Fprintln(os.Stderr, "c07 driver: sanitizer report:", err)
+				}
 			}
-			if !ao.eq(no) {
+			if !align && !ao.eq(no) {
 				emit(ao, "asan", "asan-differs-from-native")
 			}
 			if err != nil {
@@ -389,6 +434,7 @@ func (e *env) runGroup(g group, out *[]vh.Case, gid int) {
 		if L%7 == 3 || L < 64 {
 			if mayWrite {
 				rt.setMaps(g.ents, p.writes)
+				dirty = true
 			}
 			sr, err := rt.nat.Run(p.name, frame, &bpfrun.RunOpts{GuardStart: true})
 			must(err)
@@ -398,7 +444,7 @@ func (e *env) runGroup(g group, out *[]vh.Case, gid int) {
 				emit(so, "guardstart", "guardstart-differs-from-native")
 			}
 		}
-		if mayWrite {
+		if mayWrite && (no.fault || no.verdict != 0 || !bytes.Equal(no.data, frame)) {
 			dirty = true
 		}
 	}
@@ -643,6 +689,11 @@ type scen struct {
 	prim bool
 }
 
+// families of nat44_egress whose runs do not change what a later run does (the flow's session exists
+// already; only counters move): no map reset between the runs of such a group
+var stableFam = map[string]bool{"tcp-session": true, "nosub": true, "public-src": true, "gre": true, "vlan": true, "ipv6": true, "empty": true, "alg": true}
+
+
 var scenarios = map[int][]scen{
 	1: {{"v4-bound-ok", 0, true}, {"v4-bound-spoof", 0, false}, {"v4-logonly", 0, false}, {"v4-loose", 2, false},
 		{"v6-bound-ok", 0, false}, {"v6-bound-spoof", 16, false}, {"v6-loose", 0, false}, {"disabled", 0, false}, {"vlan", 0, false}, {"arp", 0, false},
@@ -651,7 +702,7 @@ var scenarios = map[int][]scen{
 		{"ipv6", 0, false}, {"ihl", 16, false}, {"random", 4, true}, {"randhdr", 4, false}},
 	3: {{"bound-unlimited", 0, true}, {"bound-drop", 0, false}, {"unbound", 0, false}, {"empty", 0, false}, {"vlan", 0, false},
 		{"ipv6", 0, false}, {"ihl", 16, false}, {"random", 4, true}, {"randhdr", 4, false}},
-	4: {{"tcp-new", 0, true}, {"udp-new", 0, true}, {"icmp-new", 0, false}, {"tcp-session", 0, false}, {"udp-eim", 0, false},
+	4: {{"tcp-session", 0, true}, {"tcp-new", 0, false}, {"udp-new", 0, false}, {"icmp-new", 0, false}, {"udp-eim", 0, false},
 		{"udp-csum0", 0, false}, {"udp-noeim", 0, false}, {"alg", 2, false}, {"exhausted", 2, false}, {"parity", 2, false}, {"nosub", 0, false},
 		{"public-src", 0, false}, {"gre", 0, false}, {"ihl-tcp", 16, false}, {"ihl-udp", 16, false}, {"ihl-icmp", 16, false},
 		{"vlan", 0, false}, {"ipv6", 0, false}, {"empty", 0, false}, {"random", 4, true}, {"randhdr", 6, false}},
@@ -1237,13 +1288,86 @@ func sparseLens(head, hstep, step int, off int) []int {
 const header = `From Coq Require Import NArith List. Import ListNotations.
 From Verif Require Import Base.Word Model.PktMonad Model.PktSpec Model.PktCheck.
 Local Open Scope N_scope.
-Definition cases : list case := [
 `
-const footer = `
-].
-Definition R := Eval vm_compute in run_cases cases.
+const footer = `Definition R := Eval vm_compute in run_cases cases.
 Print R.
 `
+
+// emit writes one stream like vh.Emit does (same file names, meta and cases.jsonl), but with the cases of a
+// shard split into definitions of at most 60 cases that are appended afterwards.
+func emit(c vh.Config, stream string, cases []vh.Case, extra map[string]interface{}) {
+	nsh := 0
+	tagCount := map[string]int{}
+	distinct := map[string]bool{}
+	jl, err := os.Create(filepath.Join(c.Out, stream+".cases.jsonl"))
+	must(err)
+	jw := bufio.NewWriter(jl)
+	for i := 0; i < len(cases); i += c.Shard {
+		j := i + c.Shard
+		if j > len(cases) {
+			j = len(cases)
+		}
+		f, err := os.Create(filepath.Join(c.Out, fmt.Sprintf("%s_%d.v", stream, nsh)))
+		must(err)
+		w := bufio.NewWriter(f)
+		w.WriteString(header)
+		written := map[string]bool{}
+		for k := i; k < j; k++ {
+			for _, d := range cases[k].Defs {
+				if !written[d.Name] {
+					written[d.Name] = true
+					fmt.Fprintf(w, "Definition %s : %s := %s.\n", d.Name, d.Type, d.Body)
+				}
+			}
+		}
+		var chunks []string
+		for k := i; k < j; k += 60 {
+			e := k + 60
+			if e > j {
+				e = j
+			}
+			name := fmt.Sprintf("k_%d", len(chunks))
+			chunks = append(chunks, name)
+			fmt.Fprintf(w, "Definition %s : list case := [\n", name)
+			for q := k; q < e; q++ {
+				if q > k {
+					w.WriteString(";\n")
+				}
+				w.WriteString(cases[q].Coq)
+			}
+			w.WriteString("].\n")
+		}
+		fmt.Fprintf(w, "Definition cases : list case := %s.\n", strings.Join(append(chunks, "[]"), " ++ "))
+		w.WriteString(footer)
+		w.Flush()
+		f.Close()
+		nsh++
+	}
+	for _, cs := range cases {
+		for _, t := range cs.Tags {
+			tagCount[t]++
+		}
+		k := cs.Key
+		if k == "" {
+			k = cs.Coq
+		}
+		distinct[k] = true
+		b, _ := json.Marshal(cs)
+		jw.Write(b)
+		jw.WriteByte('\n')
+	}
+	jw.Flush()
+	jl.Close()
+	meta := map[string]interface{}{
+		"stream": stream, "cases": len(cases), "shards": nsh, "shard_size": c.Shard,
+		"distinct": len(distinct), "tags": tagCount, "seed": c.Seed, "tier": c.Tier,
+	}
+	for k, v := range extra {
+		meta[k] = v
+	}
+	b, _ := json.MarshalIndent(meta, "", " ")
+	must(os.WriteFile(filepath.Join(c.Out, stream+".meta.json"), b, 0o644))
+}
 
 func main() {
 	cfg := vh.ParseFlags()
@@ -1252,12 +1376,12 @@ func main() {
 	}
 	dir, err := bpfrun.Dir()
 	must(err)
-	e := &env{dir: dir, useAsan: os.Getenv("VERIF_C07_NOASAN") != "1"}
+	e := &env{dir: dir, useAsan: os.Getenv("VERIF_C07_NOASAN") != "1", asanAllLens: cfg.Thorough()}
 	e.open()
 	defer e.close()
 	extra := func() map[string]interface{} {
 		return map[string]interface{}{"kernel_bpf": e.kernelBPF, "verifier_ok": e.verifierOK, "kernel_notes": e.loadNotes,
-			"kernel_test_runs": e.kernelRuns, "kernel_refused_short_tc": e.kernelRefused, "native_runs": e.nativeRuns, "asan_runs": e.asanRuns, "guard_start_runs": e.guardStartRuns,
+			"kernel_test_runs": e.kernelRuns, "kernel_refused_short_tc": e.kernelRefused, "native_runs": e.nativeRuns, "asan_runs": e.asanRuns, "asan_alignment_aborts_ignored": e.asanAlign, "guard_start_runs": e.guardStartRuns,
 			"kernel_native_compared": e.compared, "kernel_native_disagree": e.disagree, "kernel_native_disagree_first": e.disagreeNote,
 			"native_faults": e.faults, "object_dir": dir, "exhaustive_lengths": "0..1600 for the primary families of every program"}
 	}
@@ -1274,7 +1398,7 @@ func main() {
 		must(vh.LoadReplay(cfg.Replay, &d))
 		var out []vh.Case
 		e.runGroup(explicitGroup(d), &out, gid)
-		vh.Emit(cfg, "cases", header, footer, out, extra())
+		emit(cfg, "cases", out, extra())
 		return
 	}
 	var corpus []vh.Case
@@ -1285,7 +1409,7 @@ func main() {
 		e.runGroup(explicitGroup(d), &corpus, gid)
 	}
 	if len(corpus) > 0 {
-		vh.Emit(cfg, "corpus", header, footer, corpus, extra())
+		emit(cfg, "corpus", corpus, extra())
 	}
 	for _, p := range progs {
 		var out []vh.Case
@@ -1315,6 +1439,6 @@ func main() {
 				e.runGroup(group{prog: p.id, fam: sc.fam, vr: v, seed: cfg.Seed, base: b, ents: ents, now: now, lens: lens}, &out, gid)
 			}
 		}
-		vh.Emit(cfg, p.name, header, footer, out, extra())
+		emit(cfg, p.name, out, extra())
 	}
 }
